@@ -108,7 +108,7 @@ Fixpoint move_asc (n : nat) (srcStart dst : Z) (d : tid) : prog unit :=
 
 (* table.move(a1, f, e, t [, a2]); d = T1 when a2 is absent or the same value as a1 *)
 Definition move_im (f e t : Z) (d : tid) : prog unit :=
-  if (f >? e) || ((f =? t) && tid_eqb d T1) then Ret tt
+  if f >? e then Ret tt
   else if (f <=? 0) && (wrap (f + maxint) <=? e) then Fail TETooLarge
   else if t >=? f then
     let offset := wrap (e - f) in
